@@ -5,7 +5,7 @@ seeded/*/meta.json) and create the scratch worktrees /tmp/s<N>_<ID>."""
 import sys, os, re, json, glob, subprocess
 n = sys.argv[1]
 props = sys.argv[2:] or ["C01", "C02", "C04", "C06", "C07", "C08", "C10", "C11", "C12", "C13", "C14", "C15", "C16", "C19", "C20"]
-HINT = ("Under-used so far: standard-library trait methods with default bodies that a wrapper type could override "
+HINT_OLD = ("Under-used so far: standard-library trait methods with default bodies that a wrapper type could override "
         "(Iterator::size_hint/fold/nth, Clone::clone_from, Extend::extend_one, PartialEq::ne, Hash::hash_slice, Default, Debug/Display of the wrapper types), "
         "conversions between the wrapper types themselves (From/Into/AsRef/Deref/Borrow impls), helper METHODS as opposed to the free functions the generated code calls, "
         "inputs that were type-erased / converted BEFORE being wrapped, behaviour that depends on a SEQUENCE (second use, use after a failure/stop/None, after clone, "
@@ -13,6 +13,16 @@ HINT = ("Under-used so far: standard-library trait methods with default bodies t
         "(`Trait<Assoc = X>`), traits with lifetime parameters, `Self`-returning methods, `#[skip_func]`, `#[vtbl_only]`, `#[custom_impl]`, `#[wrap_with]`/`#[return_wrap]`, supertraits, "
         "external traits (`#[cglue_trait_ext]`, the builtin Clone/AsRef/AsMut/fmt::*/Future/Stream/Sink glue), forwarded traits (`#[cglue_forward]`, `Fwd`), contexts other than CArc, "
         "by-reference containers, arithmetic corner cases (usize::MAX, zero lengths, capacity overflow, alignment > 8, zero-sized types), and cooperating edits at two sites.")
+HINT = ("Under-used so far (prefer these): argument and return SHAPES rarely seen — bool / char / u128 / i128 / isize / f32 / f64 arguments, arrays by value, "
+        "CTup2..CTup4 tuples, nested Option<Result<..>>, `&mut str`, returned `Option<&mut T>`, `impl Into<T>` with a non-trivial conversion, several slices and strings in one call, "
+        "generic METHODS handled via attributes; containers rarely seen — `Fwd<&T>` / `Fwd<&mut T>`, `CSliceBox`, `CBox::from((T, NoContext))`, `IntoInner`, `CArcSome` as instance, objects "
+        "built from an already-opaque object, two objects sharing one context, a group inside a group's associated type; generator paths rarely taken — default method bodies calling by-value "
+        "methods, `where Self: Sized` methods, `unsafe` / `extern \"C\"` trait methods, traits with constants or supertraits, lifetimes on methods (`fn f<'a>(&'a self, ..) -> &'a T`), "
+        "`#[wrap_with_obj_mut]` / `#[wrap_with_group_mut]`, `#[return_wrap]`, `#[custom_impl]`, `#[vtbl_only]`; behaviour on the SECOND and later uses of the same object/value (state kept "
+        "between calls, temporary return storage reused, something cached); conversions chained (`into_opaque` twice, cast then cast again, upcast then cast); arithmetic corner cases "
+        "(usize::MAX, isize::MAX bytes, zero-sized or over-aligned (align 16/64) types, capacity 0 with a dangling pointer); error / early-return paths (failure in the middle of a "
+        "multi-step operation, panics are out of scope); cooperating edits at two sites that are each harmless alone. AVOID (already heavily used): overriding standard-library default "
+        "methods (clone_from, nth, size_hint, ...), sabi/StableAbi attribute edits, swapped clone/drop pairs, forgotten mem::forget.")
 for p in props:
     prev = sorted(glob.glob(f"/verif/build/prompts/{p}r*.txt"), key=lambda f: int(re.search(r"r(\d+)\.txt", f).group(1)))[-1]
     old_n = re.search(r"r(\d+)\.txt", prev).group(1)
